@@ -654,6 +654,120 @@ def exact_cov_det(pts):
     return (s0 * sxx - sx * sx) * (s0 * syy - sy * sy) - (s0 * sxy - sx * sy) ** 2
 
 
+SHAPE_FINITE = ('semimajor_sigma', 'semiminor_sigma', 'fwhm', 'eccentricity', 'elongation', 'ellipticity',
+                'orientation', 'cxx', 'cyy', 'cxy')
+
+
+def shape_closed_forms(impl, i, where, counts):
+    viol = []
+    a, b, c = float(impl['covar_sigx2'][i]), float(impl['covar_sigxy'][i]), float(impl['covar_sigy2'][i])
+    if not all(math.isfinite(v) for v in (a, b, c)):
+        return viol
+    tr = a + c
+    half_diff = 0.5 * (a - c)
+    disc = math.hypot(half_diff, b)              # stable: no cancellation for (nearly) equal eigenvalues
+    l1, l2 = 0.5 * tr + disc, 0.5 * tr - disc
+    tol = 1e-13 * abs(tr)
+    if not (a > 0 and c > 0 and l2 > 1e-9 * tr):         # positive definite, not marginally so
+        return viol
+    counts['shape_closed_forms_on_pd_covariance'] = counts.get('shape_closed_forms_on_pd_covariance', 0) + 1
+    if disc <= 1e-9 * tr:
+        counts['shape_closed_forms_near_isotropic'] = counts.get('shape_closed_forms_near_isotropic', 0) + 1
+    for name in SHAPE_FINITE:
+        if not math.isfinite(impl[name][i]):
+            viol.append((f'ApertureStats.{name}:not-finite-for-positive-definite-covariance',
+                         f'{name} = {impl[name][i]!r} although the covariance [[{a!r}, {b!r}], [{b!r}, {c!r}]] is finite '
+                         'and positive definite', dict(where, covariance=[a, b, c])))
+            return viol
+    sa, sb = float(impl['semimajor_sigma'][i]), float(impl['semiminor_sigma'][i])
+    want = [('semimajor_sigma^2', sa * sa, l1, tol + 4e-16 * l1), ('semiminor_sigma^2', sb * sb, l2, tol + 4e-16 * l2),
+            ('fwhm^2', float(impl['fwhm'][i]) ** 2, 4.0 * math.log(2.0) * tr, 8 * tol + 1e-15 * tr),
+            ('eccentricity^2', float(impl['eccentricity'][i]) ** 2, max(1.0 - l2 / l1, 0.0), 4 * tol / l1 + 1e-15),
+            ('elongation^2', float(impl['elongation'][i]) ** 2, l1 / l2, (l1 / l2) * (2 * tol / l2 + 1e-15)),
+            ('(1-ellipticity)^2', (1.0 - float(impl['ellipticity'][i])) ** 2, l2 / l1, 4 * tol / l1 + 1e-14),
+            # rotation invariants of the ellipse coefficients: cxx + cyy = 1/l1 + 1/l2, cxx*cyy - cxy^2/4 = 1/(l1*l2)
+            ('cxx+cyy', float(impl['cxx'][i]) + float(impl['cyy'][i]), 1.0 / l1 + 1.0 / l2,
+             (1.0 / l2) * (4 * tol / l2 + 1e-12)),
+            ('cxx*cyy-cxy^2/4', float(impl['cxx'][i]) * float(impl['cyy'][i]) - 0.25 * float(impl['cxy'][i]) ** 2,
+             1.0 / (l1 * l2), (1.0 / (l1 * l2)) * (8 * tol / l2 + 1e-11))]
+    if disc > 1e-6 * tr:
+        th = math.degrees(0.5 * math.atan2(2.0 * b, a - c))
+        d = abs(float(impl['orientation'][i]) - th) % 180.0
+        if min(d, 180.0 - d) > 1e-9 * (1 + tr / disc):
+            viol.append(('ApertureStats.orientation:closed-form', f'orientation = {impl["orientation"][i]!r}, closed form '
+                         f'0.5*atan2(2 sxy, sx2 - sy2) of its covariance: {th!r}', dict(where, covariance=[a, b, c])))
+    for name, got, w, t in want:
+        if not abs(got - w) <= t:
+            viol.append((f'ApertureStats.shape:closed-form:{name}', f'{name} = {got!r}, closed form of the covariance '
+                         f'[[{a!r}, {b!r}], [{b!r}, {c!r}]]: {w!r}', dict(where, covariance=[a, b, c], tol=t)))
+    return viol
+
+
+# --------------------------------------------------------------------------
+# scene family 'isotropic': sources with 4-fold / 8-fold symmetry (or 2-fold mirror symmetry) measured in
+# concentric circular apertures / annuli; the second moments are isotropic to within a few ulp, so the two
+# eigenvalues of the covariance are (nearly) degenerate.  [pure numpy: reusable by other properties]
+# --------------------------------------------------------------------------
+def iso_scene(rng):
+    """-> (data (n x n float array), (xc, yc), description)"""
+    n = rng.choice([13, 15, 17, 19, 21])
+    c = n // 2
+    centre = rng.choice(['pixel', 'pixel', 'corner', 'corner', 'edge'])
+    xc, yc = {'pixel': (c, c), 'corner': (c + 0.5, c + 0.5), 'edge': (c + 0.5, float(c))}[centre]
+    yy, xx = np.mgrid[0:n, 0:n]
+    r2 = (xx - xc) ** 2 + (yy - yc) ** 2
+    kind = rng.choice(['gauss', 'gauss', 'gauss', 'plateau', 'ring', 'kernel', 'moffat'])
+    if kind == 'gauss':
+        sig = rng.choice([0.8, 1.0, 1.25, 1.5, 2.0, 2.5, 3.0, 4.0])
+        data = rng.choice([1.0, 7.0, 100.0]) * np.exp(-r2 / (2.0 * sig * sig))
+        par = sig
+    elif kind == 'moffat':
+        par = rng.choice([1.5, 2.5, 3.5])
+        data = (1.0 + r2 / 4.0) ** (-par)
+    elif kind == 'plateau':
+        par = rng.choice([1.5, 2.25, 3.0, 4.5, 100.0])
+        data = np.where(r2 <= par * par, rng.choice([1.0, 3.0, 0.1]), 0.0) + rng.choice([0.0, 0.0, 0.5])
+    elif kind == 'ring':
+        par = rng.choice([1.5, 2.5, 3.5])
+        data = np.where((r2 >= par * par) & (r2 <= (par + 1.5) ** 2), 1.0, 0.0) + 0.125
+    else:       # a few symmetric pixels convolved with a symmetric 3 x 3 kernel (pixel-centred only)
+        xc, yc, centre = float(c), float(c), 'pixel'
+        data = np.zeros((n, n))
+        par = rng.choice([0, 1, 2])
+        for d in ([(0, 0)] if par == 0 else [(par, 0), (-par, 0), (0, par), (0, -par)] + ([(0, 0)] if rng.random() < 0.5 else [])):
+            data[c + d[0], c + d[1]] = rng.choice([1.0, 10.0 / 3.0])
+        ker = np.array(rng.choice([[[1, 2, 1], [2, 4, 2], [1, 2, 1]], [[0, 1, 0], [1, 1, 1], [0, 1, 0]],
+                                   [[1, 1, 1], [1, 3, 1], [1, 1, 1]]]), dtype=float) / rng.choice([1.0, 3.0, 7.0])
+        pad = np.pad(data, 1)
+        data = sum(ker[j, k] * pad[j:j + n, k:k + n] for j in range(3) for k in range(3)) + 0.01
+    return np.asarray(data, dtype=float), (float(xc), float(yc)), f'{kind}({par})@{centre}'
+
+
+def gen_iso_spec(rng):
+    data, (xc, yc), desc = iso_scene(rng)
+    n = data.shape[0]
+    rmax = n // 2 - 1
+    if rng.random() < 0.75:
+        cls, params = 'CircularAperture', {'r': rng.randint(5, 4 * rmax) / 4.0}
+    else:
+        r_in = rng.randint(2, 2 * rmax) / 4.0
+        cls, params = 'CircularAnnulus', {'r_in': r_in, 'r_out': min(r_in + rng.randint(4, 16) / 4.0, float(rmax))}
+        if params['r_out'] <= params['r_in']:
+            params['r_out'] = params['r_in'] + 1.0
+    pert = None
+    if rng.random() < 0.3:      # near-isotropic: one pixel near the centre changed by 1 ulp ... 1e-6
+        pert = rng.choice([2.0 ** -52, 1e-12, 1e-9, 1e-6])
+        y, x = int(yc) + rng.randint(-1, 1), int(xc) + rng.randint(-1, 1)
+        data[y, x] *= (1.0 + pert)
+    r = rng.random()
+    method = 'exact' if r < 0.5 else ('center' if r < 0.75 else 'subpixel')
+    return {'data': [[_enc(v) for v in row] for row in data], 'err': None, 'mask': None,
+            'aper': {'cls': cls, 'params': params, 'positions': [[xc, yc]], 'scalar': rng.random() < 0.5},
+            'sum_method': method, 'subpixels': rng.choice([1, 2, 5]), 'sigma_clip': None,
+            'local_bkg': rng.choice([None, None, 0.0]), 'kinds': ['inside'], 'dkind': 'isotropic:' + desc,
+            'lattice': False, 'wcs': None, 'iso_perturbation': pert}
+
+
 def oracles(spec, impl=None, infos=None, phot=None, counts=None):
     """-> list of (signature, what, detail) property violations of the implementation on spec"""
     viol = []
@@ -788,6 +902,10 @@ def oracles(spec, impl=None, infos=None, phot=None, counts=None):
                 if not math.isnan(impl[name][i]):
                     viol.append((f'ApertureStats.{name}:not-nan', f'{name} = {impl[name][i]!r} for an aperture '
                                  'without any usable pixel', dict(where, got=impl[name][i])))
+        # ---- P6: shape parameters = closed forms (C07R) of the covariance matrix; finite whenever the
+        # covariance is finite and positive definite.  Eigenvalues of a symmetric 2 x 2 matrix are accurate to a
+        # few ulp of its trace whatever correct method computes them: tolerance 1e-13 * trace on the SQUARES.
+        viol += shape_closed_forms(impl, i, where, counts)
         any_unmasked = False
         if p.overlap:
             y0, y1, x0, x1 = p.large
@@ -1050,6 +1168,20 @@ def run(ctx):
         for sig, what, detail in oracles(spec, None, infos, None, counts):
             ctx.violation(sig, what, dict(describe(spec), detail=detail, cmd='bin/check C16 --replay <this file>'))
         ctx.support('arbitrary_double_images_python_oracles', 1)
+    # (nearly) isotropic second moments: degenerate covariance eigenvalues (Python oracles P1..P6)
+    m = 120 if ctx.tier == 'quick' else 1500
+    for _ in range(m):
+        spec = gen_iso_spec(ctx.rng)
+        try:
+            infos = position_info(spec)
+        except Exception:           # noqa
+            continue
+        ctx.count_case(describe(spec), True)
+        ctx.stat('isotropic-family', spec['dkind'].split('(')[0].split(':')[1] + '@' + spec['dkind'].split('@')[1])
+        ctx.stat('isotropic-family', 'perturbed' if spec['iso_perturbation'] else 'exactly-symmetric')
+        for sig, what, detail in oracles(spec, None, infos, None, counts):
+            ctx.violation(sig, what, dict(describe(spec), detail=detail, cmd='bin/check C16 --replay <this file>'))
+        ctx.support('isotropic_sources_in_concentric_apertures', 1)
     for name, cnt in sorted(counts.items()):
         ctx.support(name + ' (positions)', cnt)
     # statistics of the real ApertureStats against C16E_Model (own PRNG)
